@@ -288,3 +288,19 @@ Example ex_jc_hypotheses :
   is_ok (pack_name (bytes_of_string "www.example.org.") 100 true
            {| pn_out := [0;0;0;0;0;0;0;0;0;0;0;0]; pn_cm := Some [] |}) = true.
 Proof. split; [|reflexivity]. split; [intros k []|]. intros X Z HX. exfalso. apply HX. reflexivity. Qed.
+
+(* ---------------- exactness with compression ---------------- *)
+(* The exactness clause for messages packed WITH compression (proved for C09's
+   tightness clause in Proofs/TruncateTightProofs.v): for escape-free messages of
+   the sixteen common types ([msg_cplain]: plain questions and records whose
+   len() terms and pack statements align exactly also under compression, or a
+   real OPT), Len() equals the number of octets Pack() produces.  The invariant
+   is equality of the key sets of the packer's compression map and of the length
+   walk's suffix set at equal offsets. *)
+From Dns Require Import Proofs.TruncateTightProofs.
+Theorem msg_len_exact_for_plain_messages_with_compression :
+  forall (m : msg) (w : bytes),
+    msg_cplain m = true -> msg_okb m = true -> msg_compress m = true -> pack_msg m = Ok w ->
+    lenN w = msg_len m.
+Proof. exact msg_len_exact_compressed. Qed.
+Print Assumptions msg_len_exact_for_plain_messages_with_compression.
